@@ -171,3 +171,28 @@ Example C07_nonvacuous_call :
   | inl _ => False
   end.
 Proof. vm_compute. repeat split. Qed.
+
+(* ---- the defaults spectrum: an explicit null beats a falsy non-None default, a truthy default and a
+        None default alike, for converting and identity unpackers (instances of C07_null_wins) ----
+   class S: r: Optional[float] = 0.0; s: Optional[str] = ""; t: Optional[int] = 7; u: Optional[int] = None;
+            v: Any = 0 (identity unpacker); w: int = None (nullable only through its default) *)
+Definition spectrum : layout :=
+  [ Build_member "r" KNormal true true false (DVal (PFloat 0)) None true (NsValue (PFloat 0)) (pf (DVal (PFloat 0)) true false) true false;
+    Build_member "s" KNormal true true false (DVal (PStr "")) None true (NsValue (PStr "")) (pf (DVal (PStr "")) true false) true false;
+    Build_member "t" KNormal true true false (DVal (PInt 7)) None true (NsValue (PInt 7)) (pf (DVal (PInt 7)) true false) true false;
+    Build_member "u" KNormal true true false (DVal PNone) None true (NsValue PNone) (pf (DVal PNone) true false) true false;
+    Build_member "v" KNormal true true false (DVal (PInt 0)) None true (NsValue (PInt 0)) (pf (DVal (PInt 0)) true false) true true;
+    Build_member "w" KNormal true true false (DVal PNone) None true (NsValue PNone) (pf (DVal PNone) true false) false false ].
+
+Example C07_null_beats_any_default :
+  layout_ok spectrum = true /\ view_ok spectrum = true /\
+  decode idconv spectrum [("r", PNone); ("s", PNone); ("t", PNone); ("u", PNone); ("v", PNone); ("w", PNone)] 0 =
+    OOk [("r", Some PNone); ("s", Some PNone); ("t", Some PNone); ("u", Some PNone); ("v", Some PNone); ("w", Some PNone)] 0 /\
+  decode idconv spectrum [] 0 =
+    OOk [("r", Some (PFloat 0)); ("s", Some (PStr "")); ("t", Some (PInt 7)); ("u", Some PNone);
+         ("v", Some (PInt 0)); ("w", Some PNone)] 0 /\
+  (* falsy present values beat truthy defaults as well *)
+  decode idconv spectrum [("t", PInt 0); ("v", PBool false)] 0 =
+    OOk [("r", Some (PFloat 0)); ("s", Some (PStr "")); ("t", Some (PInt 0)); ("u", Some PNone);
+         ("v", Some (PBool false)); ("w", Some PNone)] 0.
+Proof. repeat split; reflexivity. Qed.
